@@ -42,8 +42,8 @@ def shuffleLoop : Nat → Array Nat → UInt32 → Array Nat × UInt32
   | 0, a, g => (a, g)
   | i + 1, a, g =>
     -- for ; i > 0; i-- { j := int(r.int31n(int32(i + 1))); swap(i, j) }   (here the loop variable is i+1)
-    let (j, g) := int31n (i + 2).toUInt32 g
-    shuffleLoop i (a.swapIfInBounds (i + 1) j.toNat) g
+    let r := int31n (i + 2).toUInt32 g
+    shuffleLoop i (a.swapIfInBounds (i + 1) r.1.toNat) r.2
 
 def shuffle : Shuffle UInt32 := fun n g =>
   let (a, g) := shuffleLoop (n - 1) (Array.range n) g
@@ -96,116 +96,93 @@ def showLL (l : List (List Int)) : String :=
 def showLLL (l : List (List (List Int))) : String :=
   "[" ++ " ".intercalate (l.map showLL) ++ "]"
 
-def showOutcome {α} (f : α → String) : Outcome α → String
-  | .ok a => "ok" ++ (let s := f a; if s.isEmpty then "" else " " ++ s)
-  | .panic => "panic"
-  | .diverge => "hang"
-
-/-! ### the register machine -/
+/-! ### the register machine: parse into `Op`, run `stepOp` of the Model, print the `Obs` -/
 
 structure St where
-  regs : Array (MSet Int)
+  regs : List (MSet Int)
   g : UInt32
   dead : Bool := false
 
 def parseInts (ws : List String) : Option (List Int) := ws.mapM parseInt?
 def parseNats (ws : List String) : Option (List Nat) := ws.mapM parseNat?
 
-def getRegs (regs : Array (MSet Int)) (is : List Nat) : Option (List (MSet Int)) := is.mapM (regs[·]?)
+def fmtSet (l : List Int) : String := "{" ++ ", ".intercalate (l.map toString) ++ "}"
 
-def str (s : MSet Int) : String := s.string (fun v => toString v)
+def parseOp : List String → Option (Op Int)
+  | "add" :: i :: vs => do return .add (← parseNat? i) (← parseInts vs)
+  | "remove" :: i :: vs => do return .remove (← parseNat? i) (← parseInts vs)
+  | ["removeall", i] => do return .removeAll (← parseNat? i)
+  | "contains" :: i :: vs => do return .contains (← parseNat? i) (← parseInts vs)
+  | ["size", i] => do return .size (← parseNat? i)
+  | ["isempty", i] => do return .isEmpty (← parseNat? i)
+  | ["all", i] => do return .all (← parseNat? i)
+  | ["equal", i, j] => do return .equal (← parseNat? i) (← parseNat? j)
+  | ["subset", i, j] => do return .subset (← parseNat? i) (← parseNat? j)
+  | ["superset", i, j] => do return .superset (← parseNat? i) (← parseNat? j)
+  | ["clone", d, i] => do return .clone (← parseNat? d) (← parseNat? i)
+  | ["cloneempty", d, i] => do return .cloneEmpty (← parseNat? d) (← parseNat? i)
+  | ["new", d, k] => do
+    let impl ← match k.toList with
+      | [c] => implOf c
+      | _ => none
+    return .new (← parseNat? d) impl
+  | "union" :: d :: i :: js => do return .union (← parseNat? d) (← parseNat? i) (← parseNats js)
+  | "inter" :: d :: i :: js => do return .inter (← parseNat? d) (← parseNat? i) (← parseNats js)
+  | "diff" :: d :: i :: js => do return .diff (← parseNat? d) (← parseNat? i) (← parseNats js)
+  | _ => none
+
+/-- `All()` of an unordered set is printed in ascending order, of the others as yielded; the result of a
+set-algebra call is printed like `String()` prints it (member slice as stored) -/
+def showObs (regs : List (MSet Int)) : Op Int → Obs Int → String
+  | _, .unit => "ok"
+  | _, .bool b => "ok " ++ showBool b
+  | _, .int n => s!"ok {n}"
+  | .all i, .elems l =>
+    let unordered := match regs[i]? with
+      | some s => isUnordered s
+      | none => false
+    "ok " ++ showIntList (if unordered then isort ltI l else l)
+  | _, .elems l => "ok " ++ fmtSet l
+  | _, .bad => "bad-op"
 
 /-- result line and new state of one op; `none` = malformed op -/
 def step (st : St) (ws : List String) : Option (Outcome (St × String)) :=
-  let regs := st.regs
-  let setReg (d : Nat) (s : MSet Int) (g : UInt32) (out : String) : Option (Outcome (St × String)) :=
-    if d < regs.size then some (.ok ({ st with regs := regs.setIfInBounds d s, g := g }, out)) else none
   let lift {β} (o : Outcome β) (k : β → Option (Outcome (St × String))) : Option (Outcome (St × String)) :=
     match o with
     | .ok b => k b
     | .panic => some .panic
     | .diverge => some .diverge
-  match ws with
-  | "add" :: i :: vs => do
-    let i ← parseNat? i; let vs ← parseInts vs; let s ← regs[i]?
-    lift (s.add vs) fun s => setReg i s st.g ""
-  | "remove" :: i :: vs => do
-    let i ← parseNat? i; let vs ← parseInts vs; let s ← regs[i]?
-    lift (s.remove vs) fun s => setReg i s st.g ""
-  | ["removeall", i] => do
-    let i ← parseNat? i; let s ← regs[i]?
-    setReg i s.removeAll st.g ""
-  | "contains" :: i :: vs => do
-    let i ← parseNat? i; let vs ← parseInts vs; let s ← regs[i]?
-    lift (s.contains vs) fun b => some (.ok (st, showBool b))
-  | ["size", i] => do
-    let i ← parseNat? i; let s ← regs[i]?
-    some (.ok (st, toString s.size))
-  | ["isempty", i] => do
-    let i ← parseNat? i; let s ← regs[i]?
-    some (.ok (st, showBool s.isEmpty))
-  | ["all", i] => do
-    let i ← parseNat? i; let s ← regs[i]?
-    lift (s.all shuffle st.g) fun (ms, g) =>
-      some (.ok ({ st with g := g }, showIntList (if isUnordered s then isort ltI ms else ms)))
-  | ["string", i] => do
-    let i ← parseNat? i; let s ← regs[i]?
-    some (.ok (st, str s))
-  | ["equal", i, j] => do
-    let i ← parseNat? i; let j ← parseNat? j; let s ← regs[i]?; let t ← regs[j]?
-    lift (s.equal t) fun b => some (.ok (st, showBool b))
-  | ["subset", i, j] => do
-    let i ← parseNat? i; let j ← parseNat? j; let s ← regs[i]?; let t ← regs[j]?
-    lift (s.isSubset shuffle t st.g) fun (b, g) => some (.ok ({ st with g := g }, showBool b))
-  | ["superset", i, j] => do
-    let i ← parseNat? i; let j ← parseNat? j; let s ← regs[i]?; let t ← regs[j]?
-    lift (s.isSuperset shuffle t st.g) fun (b, g) => some (.ok ({ st with g := g }, showBool b))
-  | ["clone", d, i] => do
-    let d ← parseNat? d; let i ← parseNat? i; let s ← regs[i]?
-    setReg d s.clone st.g ""
-  | ["cloneempty", d, i] => do
-    let d ← parseNat? d; let i ← parseNat? i; let s ← regs[i]?
-    setReg d s.cloneEmpty st.g ""
-  | ["new", d, k] => do
-    let d ← parseNat? d
-    let impl ← match k.toList with
-      | [c] => implOf c
-      | _ => none
-    setReg d (MSet.new impl) st.g ""
-  | "union" :: d :: i :: js => do
-    let d ← parseNat? d; let i ← parseNat? i; let js ← parseNats js
-    let s ← regs[i]?; let sets ← getRegs regs js
-    lift (s.union shuffle sets st.g) fun (t, g) => setReg d t g (str t)
-  | "inter" :: d :: i :: js => do
-    let d ← parseNat? d; let i ← parseNat? i; let js ← parseNats js
-    let s ← regs[i]?; let sets ← getRegs regs js
-    lift (s.intersection sets) fun t => setReg d t st.g (str t)
-  | "diff" :: d :: i :: js => do
-    let d ← parseNat? d; let i ← parseNat? i; let js ← parseNats js
-    let s ← regs[i]?; let sets ← getRegs regs js
-    lift (s.difference shuffle sets st.g) fun (t, g) => setReg d t g (str t)
-  | ["powerset", i] => do
-    let i ← parseNat? i; let s ← regs[i]?
-    lift (s.powerset shuffle st.g) fun (ps, g) =>
-      let subsets := isort ltL (ps.members.map canonMembers)
-      some (.ok ({ st with g := g }, s!"{ps.size} {showLL subsets}"))
-  | ["partitions", i] => do
-    let i ← parseNat? i; let s ← regs[i]?
-    lift (s.partitions shuffle st.g) fun (ps, g) =>
-      let parts := isort ltLL (ps.members.map fun p => isort ltL (p.members.map canonMembers))
-      some (.ok ({ st with g := g }, s!"{ps.size} {showLLL parts}"))
-  | _ => none
+  match parseOp ws with
+  | some op =>
+    lift (stepOp shuffle (st.regs, st.g) op) fun ((regs, g), obs) =>
+      some (.ok ({ st with regs := regs, g := g }, showObs st.regs op obs))
+  | none =>
+    match ws with
+    | ["string", i] => do
+      let i ← parseNat? i; let s ← st.regs[i]?
+      some (.ok (st, "ok " ++ s.string (fun v => toString v)))
+    | ["powerset", i] => do
+      let i ← parseNat? i; let s ← st.regs[i]?
+      lift (s.powerset shuffle st.g) fun (ps, g) =>
+        let subsets := isort ltL (ps.members.map canonMembers)
+        some (.ok ({ st with g := g }, s!"ok {ps.size} {showLL subsets}"))
+    | ["partitions", i] => do
+      let i ← parseNat? i; let s ← st.regs[i]?
+      lift (s.partitions shuffle st.g) fun (ps, g) =>
+        let parts := isort ltLL (ps.members.map fun p => isort ltL (p.members.map canonMembers))
+        some (.ok ({ st with g := g }, s!"ok {ps.size} {showLLL parts}"))
+    | _ => none
 
 def runReg (hdr : List String) (ops : List String) : List String := Id.run do
   let kinds := (headerGet hdr "regs").getD ""
   let some impls := kinds.toList.mapM implOf | return ops.map fun _ => "bad-case"
-  let mut st : St := { regs := (impls.map MSet.new).toArray, g := (headerNat hdr "sh" 0).toUInt32 }
+  let mut st : St := { regs := impls.map MSet.new, g := (headerNat hdr "sh" 0).toUInt32 }
   let mut out : Array String := #[]
   for line in ops do
     if st.dead then out := out.push "skip"; continue
     match step st (words line) with
     | none => out := out.push "bad-op"
-    | some (.ok (st', s)) => st := st'; out := out.push (if s.isEmpty then "ok" else "ok " ++ s)
+    | some (.ok (st', s)) => st := st'; out := out.push s
     | some .panic => st := { st with dead := true }; out := out.push "panic"
     | some .diverge => st := { st with dead := true }; out := out.push "hang"
   return out.toList
